@@ -8,6 +8,7 @@ import (
 	"strings"
 )
 
+var reSliceLen = regexp.MustCompile(`\(len_(Slice_[A-Za-z0-9_]+) ([^\s()]+)\)`)
 var reStrLen = regexp.MustCompile(`\(str\.len ([^\s()]+|\([^()]*\))\)`)
 
 type ReplayRecord struct {
@@ -201,6 +202,13 @@ func (p *Prog) relax(o *Obligation) *Obligation {
 	}
 	if o.vc != nil {
 		n.Decls = o.vc.decls
+	}
+	// keep model sizes within what the replay generator materialises
+	for _, m := range reSliceLen.FindAllStringSubmatch(strings.Join(n.Facts, " ")+" "+n.Goal, -1) {
+		key := m[0]
+		if strings.HasPrefix(m[2], "p$") {
+			n.Facts = append(n.Facts, fmt.Sprintf("(and (<= 0 %s) (<= %s 4))", key, key))
+		}
 	}
 	// interface-typed inputs hold one of the known dynamic types
 	if o.vc != nil {
